@@ -966,6 +966,8 @@ class Interp:
                         return a[1] > b[1]
                 except Exception:
                     return None
+            if op == "In" and a[0] == "const" and b[0] in ("set", "tuple", "list") and all(x[0] == "const" for x in b[1]):
+                return a in b[1]
             if op == "Is" and b == NONE:
                 if a[0] in ("closure", "func", "cls", "tuple", "list", "dict", "fstr", "binop", "enter"):
                     return False
@@ -974,12 +976,22 @@ class Interp:
                     return False
             if op == "Eq" and a == b and a[0] != "top":
                 return True
+            if op in ("Eq", "Is") and a[0] == "attr" and b[0] == "attr" and a[1] == b[1] and a[1][0] == "cls" and a[2] != b[2] \
+                    and a[2].isupper() and b[2].isupper() and self._is_enum(a[1][1]):
+                return False  # two different members of one Enum
         if v[0] in ("tuple", "list") and all(x[0] != "star" for x in v[1]):
             return len(v[1]) > 0
         # truthiness of x decided by "x is None" fact
         if (("cmp", "Is", v, NONE), True) in s.facts:
             return False
         return None
+
+    def _is_enum(self, fq: str) -> bool:
+        try:
+            ci = self.p.cls(fq)
+        except AnalysisError:
+            return False
+        return any(isinstance(c, str) and c.startswith("enum.") for c in self.p.mro(ci))
 
     def _ev_slice(self, sl: ast.expr, st: State, out: Outcome):
         if isinstance(sl, ast.Slice):
@@ -1105,6 +1117,8 @@ class Interp:
                 hk = ("H", ("sub", b, i))
                 if hk in s2.env:
                     res.append((s2.env[hk], s2))
+                elif b[0] == "dict" and i[0] == "const" and all(k is not None and k[0] == "const" for k, _ in b[1]) and any(k == i for k, _ in b[1]):
+                    res.append(([v for k, v in b[1] if k == i][-1], s2))
                 else:
                     for ex in self.client.call_raises(self, ("getitem", b, i), e, s2):
                         out.exc.append((ex, s2))
